@@ -14,14 +14,19 @@ import CpModel.Basic
   lone surrogates; non-ASCII characters in `str` dict keys (`str.title()` is modelled for ASCII);
   objects whose `str()` raises; enum members that are themselves `Gradeable` / `Serializable`;
   scalar subclasses that carry a `__dict__`.
-  Pins of `post_text_encoder` are looked up by the exact class, not along the MRO.
+  A class's own `post_text_encoder` attribute is looked up by the exact class, not along the MRO.
+
+  Sets: `_json_traverse` and `_markdown_result_list` take the items of a `set` / `frozenset` from
+  `_get_ordered_set`, i.e. `sorted(items, key=<JSON text of the item>)` (`orderSet`).
 
   Errors: the only exception the traversals themselves can raise is the `TypeError` of `sorted(keys)`
   (and of `json.dumps` for a dict key it cannot coerce); both are `crash "TypeError"`.
 
   State: `Serializable.post_text_encoder` is class-level mutable state that
-  `_markdown_human_readable_names` swaps and restores through `cls`; `EncState` models the attribute of
-  `Serializable` and the attributes the assignment creates on subclasses.
+  `_markdown_human_readable_names` swaps (on `Serializable`) and restores in a `finally`; `EncState` models
+  the attribute of `Serializable` and the attributes applications may have defined on subclasses (the code
+  only reads those).  The error path of the model does not carry a state: that the `finally` restores the
+  encoder when rendering raises is checked on the implementation by the harness only.
 -/
 namespace Cp.Serial
 
@@ -63,10 +68,10 @@ inductive PyVal where
   | seq (isSet : Bool) (items : List PyVal)
   /-- `OrderedDict` (`ordered = true`) or plain `dict`, pairs in iteration order -/
   | dict (ordered : Bool) (kvs : List (PyVal × PyVal))
-  /-- object with `_asdict`: `inner = obj._asdict()`, `innerStr = str(inner)` when `inner` is not a dict;
+  /-- object with `_asdict`: `inner = obj._asdict()`;
       `metas = some fields` iff `attr.has(type(obj))`; `mdArg = some x` iff the class's own
       `_as_markdown(level)` is `self._markdown_result(x, level)` -/
-  | hasAsdict (h : ObjHdr) (metas : Option (List FieldMeta)) (mdArg : Option PyVal) (innerStr : String) (inner : PyVal)
+  | hasAsdict (h : ObjHdr) (metas : Option (List FieldMeta)) (mdArg : Option PyVal) (inner : PyVal)
   /-- attrs instance without `_asdict`: all fields (declared order) as `(str name, value)` -/
   | attrs (h : ObjHdr) (metas : List FieldMeta) (fields : List (PyVal × PyVal))
   /-- neither of the above but has `__dict__`: its items as `(str name, value)` in iteration order -/
@@ -186,120 +191,6 @@ def isPrivateKey : PyVal → Bool
   | .str s => s.startsWith "_"
   | _ => false
 
-/-! ### `_json_traverse` / `json.dumps` -/
-
-/-- keys `json.dumps` itself accepts in a dict it encodes natively -/
-def nativeKeyOk : PyVal → Bool
-  | .str _ => true
-  | .int _ => true
-  | .bool _ => true
-  | .none => true
-  | .float _ => true
-  | _ => false
-
-mutual
-/-- `Serializable._json_traverse(obj, Serializable._json_result)` followed by `json.dumps`' own
-encoding of what it returned. -/
-def jsonTraverse : PyVal → Except PErr Json
-  -- isinstance(obj, enum.Enum) → _json_result
-  | .enumParams n _ _ => .ok (.str n)
-  | .enumPlain n _ v => do
-      let j ← jsonNative v                      -- `{obj.name: obj.value}`: the raw value goes back to json.dumps
-      pure (.obj [(n, j)])
-  -- hasattr(obj, '_asdict')
-  | .hasAsdict _ _ _ _ inner => jsonTraverse inner
-  -- isinstance(obj, dict) or attr.has(type(obj))
-  | .dict ordered kvs => do
-      -- `_get_ordered_dict` runs before the values are traversed; both can only fail with TypeError,
-      -- so checking the order afterwards is not observable
-      let items ← jsonKVs kvs
-      let sorted ← orderPairs ordered items
-      pure (.obj (sorted.map fun kv => (keyString kv.1, kv.2)))
-  | .attrs _ _ fields => do
-      let items ← jsonKVs fields
-      pure (.obj ((items.filter fun kv => !isPrivateKey kv.1).map fun kv => (keyString kv.1, kv.2)))
-  -- hasattr(obj, '__dict__') → traverse(obj.__dict__), a plain dict (private names included)
-  | .hasDict _ vars => do
-      let items ← jsonKVs vars
-      let sorted ← orderPairs false items
-      pure (.obj (sorted.map fun kv => (keyString kv.1, kv.2)))
-  -- list, tuple, frozenset, set: iteration order
-  | .seq _ items => do
-      let js ← jsonList items
-      pure (.arr js)
-  -- _json_result
-  | .none => .ok .null
-  | .bool b => .ok (.bool b)
-  | .int i => .ok (.int i)
-  | .float r => .ok (.float r)
-  | .str s => .ok (.str s)
-  | .bytes b => .ok (.str (hexColon b))
-  | .opaque h => .ok (.str h.strv)
-
-def jsonList : List PyVal → Except PErr (List Json)
-  | [] => .ok []
-  | x :: xs => do
-      let j ← jsonTraverse x
-      let js ← jsonList xs
-      pure (j :: js)
-
-def jsonKVs : List (PyVal × PyVal) → Except PErr (List (PyVal × Json))
-  | [] => .ok []
-  | (k, v) :: rest => do
-      let j ← jsonTraverse v
-      let js ← jsonKVs rest
-      pure ((k, j) :: js)
-
-/-- `json.dumps`' native encoding of a raw value (reached through a plain enum's `.value`):
-basic types, list/tuple and dict are encoded without calling `default`; everything else goes
-through `default`, i.e. `_json_traverse`. -/
-def jsonNative : PyVal → Except PErr Json
-  | .none => .ok .null
-  | .bool b => .ok (.bool b)
-  | .int i => .ok (.int i)
-  | .float r => .ok (.float r)
-  | .str s => .ok (.str s)
-  | .seq false items => do
-      let js ← jsonNativeList items
-      pure (.arr js)
-  | .dict _ kvs => do
-      let items ← jsonNativeKVs kvs            -- insertion order, no sorting
-      pure (.obj items)
-  | .seq true items => do                       -- default(set) → list
-      let js ← jsonList items
-      pure (.arr js)
-  | .bytes b => .ok (.str (hexColon b))
-  | .enumParams n _ _ => .ok (.str n)
-  | .enumPlain _ true v => jsonNative v         -- an int / str / float instance: encoded natively
-  | .enumPlain n false v => do
-      let j ← jsonNative v
-      pure (.obj [(n, j)])
-  | .hasAsdict _ _ _ _ inner => jsonTraverse inner
-  | .attrs _ _ fields => do
-      let items ← jsonKVs fields
-      pure (.obj ((items.filter fun kv => !isPrivateKey kv.1).map fun kv => (keyString kv.1, kv.2)))
-  | .hasDict _ vars => do
-      let items ← jsonKVs vars
-      let sorted ← orderPairs false items
-      pure (.obj (sorted.map fun kv => (keyString kv.1, kv.2)))
-  | .opaque h => .ok (.str h.strv)
-
-def jsonNativeList : List PyVal → Except PErr (List Json)
-  | [] => .ok []
-  | x :: xs => do
-      let j ← jsonNative x
-      let js ← jsonNativeList xs
-      pure (j :: js)
-
-def jsonNativeKVs : List (PyVal × PyVal) → Except PErr (List (String × Json))
-  | [] => .ok []
-  | (k, v) :: rest => do
-      if !nativeKeyOk k then throw (.crash "TypeError")   -- "keys must be str, int, float, bool or None"
-      let j ← jsonNative v
-      let js ← jsonNativeKVs rest
-      pure ((keyString k, j) :: js)
-end
-
 /-! ### `json.dumps` text (defaults: `ensure_ascii=True`, separators `", "` and `": "`) -/
 
 def hexLower (n : Nat) : Char :=
@@ -351,6 +242,131 @@ end
 
 def Json.render (j : Json) : String := String.ofList (renderChars j)
 
+/-! ### `_get_ordered_set` -/
+
+/-- `sorted(set_value, key=lambda item: json.dumps(_json_traverse(item, _json_result)))`: `keys` are the JSON
+texts of the items in iteration order; `str` comparison is by code point and the sort is stable. -/
+def orderSet {β : Type} (keys : List String) (xs : List β) : List β :=
+  (sortBy (fun a b => decide (a.1 ≤ b.1)) (keys.zip xs)).map (·.2)
+
+/-! ### `_json_traverse` / `json.dumps` -/
+
+/-- keys `json.dumps` itself accepts in a dict it encodes natively -/
+def nativeKeyOk : PyVal → Bool
+  | .str _ => true
+  | .int _ => true
+  | .bool _ => true
+  | .none => true
+  | .float _ => true
+  | _ => false
+
+mutual
+/-- `Serializable._json_traverse(obj, Serializable._json_result)` followed by `json.dumps`' own
+encoding of what it returned. -/
+def jsonTraverse : PyVal → Except PErr Json
+  -- isinstance(obj, enum.Enum) → _json_result
+  | .enumParams n _ _ => .ok (.str n)
+  | .enumPlain n _ v => do
+      let j ← jsonNative v                      -- `{obj.name: obj.value}`: the raw value goes back to json.dumps
+      pure (.obj [(n, j)])
+  -- hasattr(obj, '_asdict')
+  | .hasAsdict _ _ _ inner => jsonTraverse inner
+  -- isinstance(obj, dict) or attr.has(type(obj))
+  | .dict ordered kvs => do
+      -- `_get_ordered_dict` runs before the values are traversed; both can only fail with TypeError,
+      -- so checking the order afterwards is not observable
+      let items ← jsonKVs kvs
+      let sorted ← orderPairs ordered items
+      pure (.obj (sorted.map fun kv => (keyString kv.1, kv.2)))
+  | .attrs _ _ fields => do
+      let items ← jsonKVs fields
+      pure (.obj ((items.filter fun kv => !isPrivateKey kv.1).map fun kv => (keyString kv.1, kv.2)))
+  -- hasattr(obj, '__dict__') → traverse(obj.__dict__), a plain dict (private names included)
+  | .hasDict _ vars => do
+      let items ← jsonKVs vars
+      let sorted ← orderPairs false items
+      pure (.obj (sorted.map fun kv => (keyString kv.1, kv.2)))
+  -- frozenset, set: the items in the order of `_get_ordered_set`
+  | .seq true items => do
+      let js ← jsonList items
+      pure (.arr (orderSet (js.map Json.render) js))
+  -- list, tuple: iteration order
+  | .seq false items => do
+      let js ← jsonList items
+      pure (.arr js)
+  -- _json_result
+  | .none => .ok .null
+  | .bool b => .ok (.bool b)
+  | .int i => .ok (.int i)
+  | .float r => .ok (.float r)
+  | .str s => .ok (.str s)
+  | .bytes b => .ok (.str (hexColon b))
+  | .opaque h => .ok (.str h.strv)
+
+def jsonList : List PyVal → Except PErr (List Json)
+  | [] => .ok []
+  | x :: xs => do
+      let j ← jsonTraverse x
+      let js ← jsonList xs
+      pure (j :: js)
+
+def jsonKVs : List (PyVal × PyVal) → Except PErr (List (PyVal × Json))
+  | [] => .ok []
+  | (k, v) :: rest => do
+      let j ← jsonTraverse v
+      let js ← jsonKVs rest
+      pure ((k, j) :: js)
+
+/-- `json.dumps`' native encoding of a raw value (reached through a plain enum's `.value`):
+basic types, list/tuple and dict are encoded without calling `default`; everything else goes
+through `default`, i.e. `_json_traverse`. -/
+def jsonNative : PyVal → Except PErr Json
+  | .none => .ok .null
+  | .bool b => .ok (.bool b)
+  | .int i => .ok (.int i)
+  | .float r => .ok (.float r)
+  | .str s => .ok (.str s)
+  | .seq false items => do
+      let js ← jsonNativeList items
+      pure (.arr js)
+  | .dict _ kvs => do
+      let items ← jsonNativeKVs kvs            -- insertion order, no sorting
+      pure (.obj items)
+  | .seq true items => do                       -- default(set) → list, in the order of `_get_ordered_set`
+      let js ← jsonList items
+      pure (.arr (orderSet (js.map Json.render) js))
+  | .bytes b => .ok (.str (hexColon b))
+  | .enumParams n _ _ => .ok (.str n)
+  | .enumPlain _ true v => jsonNative v         -- an int / str / float instance: encoded natively
+  | .enumPlain n false v => do
+      let j ← jsonNative v
+      pure (.obj [(n, j)])
+  | .hasAsdict _ _ _ inner => jsonTraverse inner
+  | .attrs _ _ fields => do
+      let items ← jsonKVs fields
+      pure (.obj ((items.filter fun kv => !isPrivateKey kv.1).map fun kv => (keyString kv.1, kv.2)))
+  | .hasDict _ vars => do
+      let items ← jsonKVs vars
+      let sorted ← orderPairs false items
+      pure (.obj (sorted.map fun kv => (keyString kv.1, kv.2)))
+  | .opaque h => .ok (.str h.strv)
+
+def jsonNativeList : List PyVal → Except PErr (List Json)
+  | [] => .ok []
+  | x :: xs => do
+      let j ← jsonNative x
+      let js ← jsonNativeList xs
+      pure (j :: js)
+
+def jsonNativeKVs : List (PyVal × PyVal) → Except PErr (List (String × Json))
+  | [] => .ok []
+  | (k, v) :: rest => do
+      if !nativeKeyOk k then throw (.crash "TypeError")   -- "keys must be str, int, float, bool or None"
+      let j ← jsonNative v
+      let js ← jsonNativeKVs rest
+      pure ((keyString k, j) :: js)
+end
+
 /-- `obj.as_json()`, i.e. `json.dumps(obj)`: `json` first tries its native encoding and calls `default`
 (`_json_traverse`) for everything else -/
 def asJson (v : PyVal) : Except PErr String := (jsonNative v).map Json.render
@@ -366,9 +382,9 @@ deriving Repr, DecidableEq, Inhabited
 
 def Enc.dflt : Enc := ⟨"", ""⟩
 
-/-- The class-level state: `Serializable.post_text_encoder` and the `post_text_encoder` attributes
-that `_markdown_human_readable_names` leaves behind on the classes it ran as (`cls.post_text_encoder = …`
-creates an attribute on `cls` itself, which from then on shadows the one of `Serializable`). -/
+/-- The class-level state: `Serializable.post_text_encoder` (`base`) and the `post_text_encoder` attributes
+subclasses carry themselves (`pins`; such an attribute shadows the one of `Serializable`).  The code assigns
+`base` only (`_markdown_human_readable_names`); it never creates or changes a subclass attribute. -/
 structure EncState where
   base : Enc
   pins : List (String × Enc)
@@ -379,11 +395,6 @@ def EncState.init : EncState := ⟨Enc.dflt, []⟩
 /-- `cls.post_text_encoder` -/
 def EncState.get (σ : EncState) (cls : String) : Enc :=
   if cls == "Serializable" then σ.base else (σ.pins.lookup cls).getD σ.base
-
-/-- `cls.post_text_encoder = e` -/
-def EncState.set (σ : EncState) (cls : String) (e : Enc) : EncState :=
-  if cls == "Serializable" then { σ with base := e }
-  else { σ with pins := (cls, e) :: σ.pins.filter (fun p => p.1 != cls) }
 
 abbrev MdRes := Bool × String
 /-- a suspended call `cls._markdown_result(value, level)` / `value._as_markdown(level)` -/
@@ -435,10 +446,10 @@ def nameOf (metas : List FieldMeta) (e : MdEntry) (cls : String) (σ : EncState)
     | some ⟨_, _, some hr⟩ => .ok (hr, σ)
     | _ => .ok (humanName s, σ)
   | _ => do
-    let saved := σ.get cls                               -- post_text_encoder = cls.post_text_encoder
-    let σ₁ := σ.set cls Enc.dflt                         -- cls.post_text_encoder = SerializableTextEncoder()
+    let saved := σ.base                                  -- post_text_encoder = Serializable.post_text_encoder
+    let σ₁ := { σ with base := Enc.dflt }                -- Serializable.post_text_encoder = SerializableTextEncoder()
     let (r, σ₂) ← e.keyAct cls 0 σ₁                      -- _, human_readable_name = cls._markdown_result(name)
-    pure (r.2, σ₂.set cls saved)                         -- cls.post_text_encoder = post_text_encoder
+    pure (r.2, { σ₂ with base := saved })                -- finally: Serializable.post_text_encoder = post_text_encoder
 
 def namesOf (metas : List FieldMeta) (cls : String) : List MdEntry → EncState → Except PErr (List String × EncState)
   | [], σ => .ok ([], σ)
@@ -475,6 +486,13 @@ def runList (items : List MdAct) : MdAct := fun cls level σ =>
   else do
     let (text, σ₁) ← listItems cls level items 0 "" σ
     pure ((true, text), σ₁)
+
+/-- `_markdown_result_list` of a set: the items in the order of `_get_ordered_set`, whose keys are the JSON texts
+of the items (`keys`: `jsonList items`, which can raise the `TypeError` of an unorderable dict inside an item) -/
+def runSet (keys : Except PErr (List Json)) (items : List MdAct) : MdAct := fun cls level σ =>
+  match keys with
+  | .error e => .error e
+  | .ok js => runList (orderSet (js.map Json.render) items) cls level σ
 
 /-- `_get_ordered_dict(dict_value, human_friendly_only=True)` on a dict, then `runComplex` -/
 def runDict (ordered : Bool) (entries : List MdEntry) : MdAct := fun cls level σ => do
@@ -542,12 +560,12 @@ def mdResult : PyVal → MdAct
     if PyVal.isSer v then fun _ level σ => mdAsMarkdown v (PyVal.clsOf v) level σ
     else encode n                                                                           -- post_text_encoder(obj.name)
   -- attr.has(type(obj)) → _markdown_result_complex(obj); else hasattr(obj, '_asdict') → _markdown_result(obj._asdict())
-  | .hasAsdict h metas (some x) innerStr inner =>
-    objResult h (asMarkdownOf h (some (mdResult x)) (mdComplexAsdict inner metas innerStr))
-      (if metas.isSome then mdComplexAsdict inner metas innerStr else mdResult inner)
-  | .hasAsdict h metas none innerStr inner =>
-    objResult h (asMarkdownOf h none (mdComplexAsdict inner metas innerStr))
-      (if metas.isSome then mdComplexAsdict inner metas innerStr else mdResult inner)
+  | .hasAsdict h metas (some x) inner =>
+    objResult h (asMarkdownOf h (some (mdResult x)) (mdComplexAsdict inner metas (mdResult inner)))
+      (if metas.isSome then mdComplexAsdict inner metas (mdResult inner) else mdResult inner)
+  | .hasAsdict h metas none inner =>
+    objResult h (asMarkdownOf h none (mdComplexAsdict inner metas (mdResult inner)))
+      (if metas.isSome then mdComplexAsdict inner metas (mdResult inner) else mdResult inner)
   | .attrs h metas fields =>
     objResult h
       (runComplex metas ((mdEntries fields).filter fun e => !isPrivateKey e.key && humanFriendlyKey metas e.key))
@@ -556,16 +574,17 @@ def mdResult : PyVal → MdAct
     objResult h (runDict false ((mdEntries vars).filter fun e => !isPrivateKey e.key))
       (runDict false ((mdEntries vars).filter fun e => !isPrivateKey e.key))
   | .dict ordered kvs => runDict ordered (mdEntries kvs)
-  | .seq _ items => runList (mdActs items)
+  | .seq true items => runSet (jsonList items) (mdActs items)
+  | .seq false items => runList (mdActs items)
   | .bytes b => encode (hexColon b)
   | .opaque h => objResult h (encode h.strv) (encode h.strv)
 
 /-- `obj._as_markdown(level)` -/
 def mdAsMarkdown : PyVal → MdAct
-  | .hasAsdict h metas (some x) innerStr inner =>
-    asMarkdownOf h (some (mdResult x)) (mdComplexAsdict inner metas innerStr)
-  | .hasAsdict h metas none innerStr inner =>
-    asMarkdownOf h none (mdComplexAsdict inner metas innerStr)
+  | .hasAsdict h metas (some x) inner =>
+    asMarkdownOf h (some (mdResult x)) (mdComplexAsdict inner metas (mdResult inner))
+  | .hasAsdict h metas none inner =>
+    asMarkdownOf h none (mdComplexAsdict inner metas (mdResult inner))
   | .none => constRes (false, "")         -- the remaining cases are not reachable: every Serializable has `_asdict`
   | .bool _ => constRes (false, "")
   | .int _ => constRes (false, "")
@@ -580,23 +599,24 @@ def mdAsMarkdown : PyVal → MdAct
   | .hasDict .. => constRes (false, "")
   | .opaque .. => constRes (false, "")
 
-/-- `_markdown_result_complex(obj, level)` for an object with `_asdict`, by the value `_asdict()` returned -/
-def mdComplexAsdict : PyVal → Option (List FieldMeta) → String → MdAct
+/-- `_markdown_result_complex(obj, level)` for an object with `_asdict`, by the value `_asdict()` returned;
+`self` is `cls._markdown_result(dict_value, level)`, taken when the value is not a dict -/
+def mdComplexAsdict : PyVal → Option (List FieldMeta) → MdAct → MdAct
   | .dict _ kvs, some ms, _ => runComplex ms ((mdEntries kvs).filter fun e => humanFriendlyKey ms e.key)
   | .dict _ kvs, none, _ => runComplex [] (mdEntries kvs)
-  | .none, _, s => constRes (false, s)     -- `return False, dict_value`: the raw value, rendered by the caller's `format`
-  | .bool _, _, s => constRes (false, s)
-  | .int _, _, s => constRes (false, s)
-  | .float _, _, s => constRes (false, s)
-  | .str _, _, s => constRes (false, s)
-  | .bytes _, _, s => constRes (false, s)
-  | .enumParams .., _, s => constRes (false, s)
-  | .enumPlain .., _, s => constRes (false, s)
-  | .seq .., _, s => constRes (false, s)
-  | .hasAsdict .., _, s => constRes (false, s)
-  | .attrs .., _, s => constRes (false, s)
-  | .hasDict .., _, s => constRes (false, s)
-  | .opaque .., _, s => constRes (false, s)
+  | .none, _, self => self
+  | .bool _, _, self => self
+  | .int _, _, self => self
+  | .float _, _, self => self
+  | .str _, _, self => self
+  | .bytes _, _, self => self
+  | .enumParams .., _, self => self
+  | .enumPlain .., _, self => self
+  | .seq .., _, self => self
+  | .hasAsdict .., _, self => self
+  | .attrs .., _, self => self
+  | .hasDict .., _, self => self
+  | .opaque .., _, self => self
 
 def mdActs : List PyVal → List MdAct
   | [] => []
@@ -620,5 +640,49 @@ def asMarkdownSt (v : PyVal) (σ : EncState) : Except PErr (String × EncState) 
   (if v.isSer then mdAsMarkdown v v.clsOf 0 σ else mdResult v baseCls 0 σ).map fun r => (r.1.2, r.2)
 
 def asMarkdown (v : PyVal) : Except PErr String := (asMarkdownSt v EncState.init).map (·.1)
+
+/-! ## the hypothesis of the set-order theorems (evaluated by the driver's `DK` op) -/
+
+/-- the traversed item (`null` stands in when the traversal raises: the whole call raises then) -/
+def jsonOf (x : PyVal) : Json :=
+  match jsonTraverse x with
+  | .ok j => j
+  | .error _ => .null
+
+/-- `json.dumps(Serializable._json_traverse(item, Serializable._json_result))` -/
+def setKey (x : PyVal) : String := Json.render (jsonOf x)
+
+def jsonOk (x : PyVal) : Bool :=
+  match jsonTraverse x with
+  | .ok _ => true
+  | .error _ => false
+
+mutual
+/-- in every set inside the value, different elements have different keys (`setKey`).  Elements of a Python set
+are pairwise different objects; this asks that their JSON documents differ too. -/
+def distinctKeys : PyVal → Bool
+  | .none => true
+  | .bool _ => true
+  | .int _ => true
+  | .float _ => true
+  | .str _ => true
+  | .bytes _ => true
+  | .enumParams _ _ (some v) => distinctKeys v
+  | .enumParams _ _ none => true
+  | .enumPlain _ _ v => distinctKeys v
+  | .seq isSet xs => (!isSet || decide ((xs.map setKey).Nodup)) && distinctKeysL xs
+  | .dict _ kvs => distinctKeysKV kvs
+  | .hasAsdict _ _ (some x) inner => distinctKeys x && distinctKeys inner
+  | .hasAsdict _ _ none inner => distinctKeys inner
+  | .attrs _ _ fs => distinctKeysKV fs
+  | .hasDict _ vars => distinctKeysKV vars
+  | .opaque _ => true
+def distinctKeysL : List PyVal → Bool
+  | [] => true
+  | x :: xs => distinctKeys x && distinctKeysL xs
+def distinctKeysKV : List (PyVal × PyVal) → Bool
+  | [] => true
+  | (k, v) :: rest => distinctKeys k && distinctKeys v && distinctKeysKV rest
+end
 
 end Cp.Serial
